@@ -3,6 +3,7 @@
 from __future__ import annotations
 
 import ast
+import re
 
 import z3
 
@@ -80,10 +81,20 @@ def _quant(eng, e, st, kind):
         consts.append(c)
     env = Env(binds, st.env)
     n0 = len(st.pc)
+    mark = next(smt._counter)
     s = State(env, st.heap, st.pc, st.old, dict(st.ghost))
     (body, s2), = eng.ev(lam.body, s)
     b = eng.truth(s2, body)
     extra = list(st.pc[n0:])
+    # soundness guard: a free symbol introduced while evaluating the body (fresh array defined by an
+    # assumption) would be ONE symbol for ALL values of the bound variables
+    from z3.z3util import get_vars as _gv
+    own = {c.get_id() for c in consts}
+    for f in extra + [b]:
+        for v in _gv(f):
+            m = re.search(r"!(\d+)$", v.decl().name())
+            if m and int(m.group(1)) > mark and v.get_id() not in own:
+                raise Unsupported(f"fresh symbol {v} defined under a quantifier")
     if extra:
         # facts introduced while evaluating the body (representation invariants of the objects touched,
         # definitions of fresh arrays) hold for every value of the bound variables: they are hoisted as
@@ -349,6 +360,14 @@ def havoc_for_call(eng, c, b, s, spec_st, label):
         refs.append(get_ref(v.t))
     for r in refs:
         eng.check_write(s, r, "callee")
+    if not refs:
+        # the callee writes nothing that existed before the call (its own frame obligations): the heap
+        # arrays are kept; its fresh objects live in [alloc, alloc') whose cells nothing has constrained yet
+        h = old_heap.copy()
+        h.alloc = fresh("call_alloc", smt.I)
+        s.heap = h
+        s.assume(h.alloc >= old_heap.alloc)
+        return
     fields = c.modifies_fields
     if fields is None:
         fields = list(old_heap.fld.keys()) if refs else []
